@@ -135,10 +135,14 @@ class CoapWorld:
 
     def serve(self, path: str, payload: bytes, outcome: dict):
         acc = self.acc
-        if path == "2":
-            return Code.CHANGED, acc.post_pair_verify(payload)
-        if path == "1":
-            return Code.CHANGED, acc.post_pair_setup(payload)
+        if path in ("1", "2"):
+            r = acc.post_pair_verify(payload) if path == "2" else acc.post_pair_setup(payload)
+            if isinstance(r, tuple):
+                # the accessory answers a failed pairing step under a CoAP error code (4.01, 4.00, 5.00 ...): aiocoap does not raise
+                # on those, the requester gets an ordinary Message with the payload intact
+                self.ctx.probe("coap_pairing_reply_under_error_code")
+                return getattr(Code, r[0]), r[1]
+            return Code.CHANGED, r
         if path == "0":
             return Code.CHANGED, b""
         if outcome["kind"] == "future":  # the accessory's send counter is ahead (replies the controller never saw)
